@@ -456,6 +456,14 @@ func (w *worker) startDirectory(o map[string]string) {
 		opts = append(opts, testdirectory.WithNoTLS(qt))
 	}
 	td := testdirectory.Start(qt, opts...)
+	for attempt := 0; attempt < 5 && qt.failed; attempt++ {
+		// the free port was taken by another process before the directory bound it
+		td.Stop()
+		qt.mu.Lock()
+		qt.failed, qt.msgs = false, nil
+		qt.mu.Unlock()
+		td = testdirectory.Start(qt, opts...)
+	}
 	w.dir = td
 	if o["tls"] == "none" {
 		w.addr = fmt.Sprintf("%s:%d", td.Host(), td.Port())
